@@ -534,8 +534,27 @@ func runC02(c *Ctx) {
 					return
 				}
 				n++
-				// g must be a closure passed to startOnce.Do
+				// g must be a closure passed to startOnce.Do (or a helper called only from such closures)
 				ok := false
+				if g.Parent() == nil {
+					ok = onlyFromClosures(g, func(cg *ssa.Function) bool {
+						isStart := false
+						EachInstr(cg.Parent(), func(i2 ssa.Instruction) {
+							if cl, isC := i2.(*ssa.Call); isC && MatchCC(&cl.Call, sOnceDo) {
+								if mc, isMC := Strip(cl.Call.Args[1]).(*ssa.MakeClosure); isMC && mc.Fn == cg {
+									if fv, _ := FieldOf(cl.Call.Args[0]); fv != nil && fv.Name() == "startOnce" {
+										isStart = true
+									} else if fa, isFA := cl.Call.Args[0].(*ssa.FieldAddr); isFA {
+										if fv2, _ := FieldOf(fa); fv2 != nil && fv2.Name() == "startOnce" {
+											isStart = true
+										}
+									}
+								}
+							}
+						})
+						return isStart
+					}, 0)
+				}
 				if par := g.Parent(); par != nil {
 					EachInstr(par, func(i2 ssa.Instruction) {
 						if cl, isC := i2.(*ssa.Call); isC && MatchCC(&cl.Call, sOnceDo) {
@@ -554,7 +573,7 @@ func runC02(c *Ctx) {
 				c.Check(ok, "O2.6", fk(g)+":"+what+"-written-only-in-startOnce", in.Pos(), what+" may be written only inside a closure given to startOnce.Do")
 			})
 		}
-		c.Floor("O2.6", "writes of schedule start/finish times", n, 4)
+		c.Floor("O2.6", "writes of schedule start/finish times", n, 2)
 	}
 	// ---------------- O2.10
 	c02PublishBeforeStarted(c, pkgFns)
@@ -1118,10 +1137,12 @@ func c02ReadAfterStart(c *Ctx, id string, pkgFns []*ssa.Function) {
 		_, tn := NamedOf(fa.X.Type())
 		return st.Field(fa.Field), tn
 	}
-	isOnceDoClosure := func(g *ssa.Function) bool {
+	var isOnceDoClosure func(g *ssa.Function) bool
+	isOnceDoClosure = func(g *ssa.Function) bool {
 		par := g.Parent()
 		if par == nil {
-			return false
+			// a helper called only from the start closures belongs to them
+			return onlyFromClosures(g, func(cg *ssa.Function) bool { return isOnceDoClosure(cg) }, 0)
 		}
 		found := false
 		EachInstr(par, func(in ssa.Instruction) {
@@ -1219,5 +1240,30 @@ func c02ReadAfterStart(c *Ctx, id string, pkgFns []*ssa.Function) {
 				"the "+fv.Name()+" of the schedule is used at "+P.Pos(in.Pos())+" before the schedule is known to be started (neither after this method's startOnce.Do nor under IsStarted())")
 		})
 	}
-	c.Floor(id, "uses of start-time fields outside the start closures", n, 3)
+	c.Floor(id, "uses of start-time fields outside the start closures", n, 1)
+}
+
+// onlyFromClosures: the named function g is called (at least once, statically, inside its package) only from
+// closures satisfying isStart, directly or through further such helpers.
+func onlyFromClosures(g *ssa.Function, isStart func(cg *ssa.Function) bool, depth int) bool {
+	if g == nil || depth > 2 || g.Object() != nil && g.Object().Exported() {
+		return false
+	}
+	sites := PkgCallers(g)
+	if len(sites) == 0 {
+		return false
+	}
+	for _, s := range sites {
+		f := s.Parent()
+		if f.Parent() != nil {
+			if !isStart(f) {
+				return false
+			}
+			continue
+		}
+		if !onlyFromClosures(f, isStart, depth+1) {
+			return false
+		}
+	}
+	return true
 }
